@@ -25,21 +25,7 @@ GOOGLE_URL_RE = re.compile(r"/url\?(?:[^#]*&)?q=")
 YOUTUBE_REDIRECT_RE = re.compile(r"youtube\.com(?::\d*)?/redirect\?", re.I)
 
 
-def infer_redirection(url, recursive=True):
-    """
-    Function returning the url that the given url will redirect to. This is done
-    by finding obvious hints in the GET parameters that the given url is in
-    fact a redirection.
-
-    Args:
-        url (string): Target url.
-        recursive (bool): Whether to apply the function recursively until
-            no redirection can be inferred. Defaults to `True`.
-
-    Returns:
-        string: Redirected url or the original url if nothing was found.
-    """
-
+def infer_one_redirection(url):
     redirection_split = REDIRECTION_DOMAINS_RE.split(url, 1)
 
     target = None
@@ -95,12 +81,34 @@ def infer_redirection(url, recursive=True):
 
     # NOTE: an inferred target is always a strict part of the url, hence shorter.
     # When it is not (e.g. `?u=//`, that urljoin resolves to the url itself),
-    # following it makes no progress and would recurse forever: such a url
-    # redirects nowhere. This also bounds the recursion depth.
+    # following it makes no progress and would loop forever: such a url
+    # redirects nowhere. This also bounds the number of steps.
     if target is None or len(target) >= len(url):
         return url
 
-    if recursive:
-        return infer_redirection(target, recursive=True)
+    return target
+
+
+def infer_redirection(url, recursive=True):
+    """
+    Function returning the url that the given url will redirect to. This is done
+    by finding obvious hints in the GET parameters that the given url is in
+    fact a redirection.
+
+    Args:
+        url (string): Target url.
+        recursive (bool): Whether to apply the function recursively until
+            no redirection can be inferred. Defaults to `True`.
+
+    Returns:
+        string: Redirected url or the original url if nothing was found.
+    """
+    target = infer_one_redirection(url)
+
+    # NOTE: in a loop rather than by recursion: a url can nest more
+    # redirections than the interpreter allows nested calls
+    while recursive and target != url:
+        url = target
+        target = infer_one_redirection(url)
 
     return target
